@@ -42,6 +42,113 @@ add(
     "DESIGN.md section 4, C04",
 )
 
+add("C03", "exploration",
+    "complete shape x material grid + Hypothesis temperature paths and linked-dimension histories against f(T) from linearExpansionPercent",
+    "Every one of 12 two-dimensional shape classes x 52 library materials is visited (expanding solids several times per cell with "
+    "generated cold dimensions, input temperature and 1-6 temperatures inside the material's declared validity window, boundaries and "
+    "0 C included). Hypothesis additionally draws paths, hot dimension writes, blueprint material modifications and 2-4-component "
+    "linked blocks built like BlockBlueprint.construct. After every step dimensions, area, per-nuclide density ratios, mass per unit "
+    "height, cached volume/getMass, Tc= previews, link equality and path-vs-single-jump are compared with cold*f, f^2 and (f1/f2)^2.",
+    "Trusts each material's own linearExpansionPercent (evaluated on a separate instance) and the validity windows it declares. "
+    "Tolerances rel 1e-10 (formulas), 1e-12 (read-backs), exact for kept dimensions. Only density ratios are judged.",
+    "DESIGN.md section 4, C03")
+
+add("C08", "exploration",
+    "exhaustive cell enumeration + model-based rotation histories against an exact cube-coordinate geometry",
+    "Every cell within 20 rings (60 thorough) x both orientations x k in [-12,12] for rotateIndex; every cell within 40 (150) rings for "
+    "third-core symmetry; every cell with |i|,|j| <= 30 (120) for the four Cartesian quarter-core variants; all cell numbers within 30 "
+    "(90) rings for getIndexOfRotatedCell; all 50 angle constructions for HexAssembly.rotate; Hypothesis-generated 1-3-block hex "
+    "assemblies with pin lattices and boundary data under rotation histories compared after every step with an integer-coordinate model.",
+    "vp/model/hexmodel.py geometry and its documented conventions; blocks assembled directly the way blueprints do it; float tolerance "
+    "1e-9*pitch*ring.",
+    "DESIGN.md section 4, C08")
+
+add("C09", "exploration",
+    "property-based differential testing against a struct reference encoder; round trip and byte idempotence",
+    "Random field sequences go through the binary and ASCII record classes against an independent encoder. Containers of the eight "
+    "simple formats are built from scratch and every written file is compared record by record with the documented layout, then read "
+    "back, re-written and taken through ASCII. The five cross-section library formats are exercised by mutating the shipped libraries "
+    "under a container-level reference encoder that reproduces every shipped fixture byte for byte. All 30 shipped CCCC files are "
+    "re-written byte-identically in both encodings.",
+    "Trusts vp/model/c09_ref.py and the layout transcriptions in c09_formats.py / c09_xs.py (anchored to the fixtures), float32-exact "
+    "values, strings without trailing blanks. Known shapes (ISOTXS sub-blocking, ASCII field widths) are excluded by construction. A "
+    "presence condition wrong in the same way for reading and writing and not exercised by a fixture stays undetectable for the "
+    "library formats.",
+    "DESIGN.md section 4, C09")
+
+add("C10", "exploration",
+    "reference model + all-orders enumeration of generated library sets; metamorphic relations (linearity, additivity)",
+    "Generated ISOTXS/GAMISO/PMATRX libraries, written and re-read with armi's own I/O, are merged in every order into an empty or "
+    "existing library; after each step the result must equal a union model or, on conflict, be refused with the target unchanged. "
+    "Macroscopic and energy constants and MacroscopicCrossSectionCreator output are compared with independent numpy sums and checked "
+    "for linearity, additivity, zero on empty compositions and their defining derived sums.",
+    "armi's cccc readers/writers (C09) produce the objects; library data are truncations and relabelings of the shipped fixtures; "
+    "documented 'first velocity wins' and 'file-wide chi dropped on merge' accepted; sums compared at 1e-10 * sum|terms|. Three known "
+    "refused-merge shapes are excluded by construction.",
+    "DESIGN.md section 4, C10")
+
+add("C12", "exploration",
+    "property-based testing of expansion histories against a reference model",
+    "Hypothesis-generated pin-type assemblies (8 block kinds, 11 materials, explicit/automatic targets, direct and blueprint "
+    "construction) x histories of 1-6 prescribed or thermal-field expansions with optional inverses. After every change: height, "
+    "contiguity, grid bounds, target tracking, linkage and stacking, target and uniform-growth mass, density scaling, inverse "
+    "restoration. The one shape where armi conserves the linked column instead of the per-block target is excluded by construction, "
+    "counted, and kept observed in a separate part.",
+    "material.linearExpansionPercent and Component.setTemperature's radial update; the generator's own description of the assembly for "
+    "expected targets and linkage; tolerances 1e-10.",
+    "DESIGN.md section 4, C12")
+
+add("C13", "exploration",
+    "model-based property testing of symmetry-conversion programs (Hypothesis)",
+    "Generated third-core hex reactors (2-5 rings, holes, with/without centre assembly, pin lattices, arbitrary block parameters and "
+    "compositions) are driven through generated programs of convert / restore / add-edge / remove-edge / assignments. After each "
+    "conversion the occupied cells, the copies (rotation, independence, names) and the x3 relations on mass, volume and parameter "
+    "totals are checked against an independent hex geometry and armi's own pre-conversion totals; after each restore or edge removal "
+    "the core must equal the earlier observe() snapshot with identical lookup-table bindings.",
+    "observe() as the notion of state (volume/area caches and Core.p.maxAssemNum excluded); vp/model/hexmodel.py; the blueprint route "
+    "of vp/gen/reactor.py; 4 ulp for centre values multiplied then divided by 3; rel 1e-10 for x3 sums.",
+    "DESIGN.md section 4, C13")
+
+add("C14", "exploration",
+    "model-based property testing of fuel-move programs (Hypothesis)",
+    "Generated cores (hex third/full, Cartesian full/quarter, 2-4 rings, with pool) x trackAssems x stationary-flag settings x "
+    "programs of up to 14 swap / cascade / discharge-swap / add / remove operations are run against a location/pool/purged/block-stack "
+    "reference model. Children, locators, the three lookup tables, inventory, refusals and assembly contents are compared after every "
+    "step. The two known shapes are excluded by construction, counted, and kept under observation by a dedicated part.",
+    "vp/gen/reactor.py; a stand-in operator with only .r and .cs; stationary status taken from the blueprint block kind; armi's "
+    "getSymmetryFactor used to normalise masses and areas.",
+    "DESIGN.md section 4, C14")
+
+add("C15", "exploration",
+    "reference scheduler vs recorded hook trace; inverse-pair enumeration of node numbering",
+    "Generated cycle histories (both input styles, restart, zero-step cycles) combined with generated interface stacks and coupling "
+    "scripts are run through the real Operator and compared event for event, including reactor time state, with an independent "
+    "scheduler. Node and step numbering is checked exhaustively for every burn-step vector up to 4 cycles x 3 steps (5 x 4 thorough) "
+    "and on generated histories up to 8 x 6. Documented-invalid configurations must raise.",
+    "vp/model/schedule.py written from docs and docstrings; the deferral rule (BOL and BOC only) follows the implementation; recorders "
+    "are real Interface subclasses; two known input shapes (zero burn steps / zero availability in detailed cycles) are excluded.",
+    "DESIGN.md section 4, C15")
+
+add("C19", "exploration",
+    "exhaustive table enumeration + Hypothesis temperatures",
+    "Every nuclide, identifier-table key, element, burn-chain entry and material class is enumerated completely; material property "
+    "functions are evaluated on a dense grid (41 points quick, 2001 thorough) and at Hypothesis-drawn temperatures including exact end "
+    "points and 1e-6 end neighbourhoods of each stated range.",
+    "The harness' own decoders for name/label/MCNP/AAAZZZS ids and re-readers for nuclides.dat, mcc-nuclides.yaml, burn-chain.yaml; "
+    "documented aliases (AM242/nAm242 -> Am-242m; DUMP1/DUMP2 share DUMMY); stated range = ranges the function itself checks; "
+    "tolerances abundance 1e-6, mass fractions 1e-5. Four known data/material findings are excluded and counted.",
+    "DESIGN.md section 4, C19")
+
+add("C20", "exploration",
+    "exhaustive label enumeration + property-based collections/cores against a numpy weighted-mean reference",
+    "All one- and two-letter labels over A-Z a-z are enumerated completely. About 500 generated block collections and 300 generated "
+    "cores per quick run (24000/12000 thorough) cover Median, Average, FluxWeighted, by-component and 1-D cylinder representations, "
+    "nine block-type filters and burnup/temperature boundaries, judged by an independent numpy recomputation plus range, "
+    "common-value, duplication, eligible-only and rescaling invariances.",
+    "armi's component volume/area/mass and number-density dicts (C02/C03); blueprint construction; float64 means at rel 1e-10; either "
+    "middle member accepted as the median for an even number of members.",
+    "DESIGN.md section 4, C20")
+
 NOT_BUILT_REASON = "check not built yet in this round (planned in DESIGN.md section 4); not claimed"
 
 
